@@ -391,6 +391,10 @@ def replay_failure(group, tree, scratch, res, tier, pid):
             failed_native = bool(re.search(r"test result: FAILED", ptext)) and any(
                 re.search(r"%s \.\.\. FAILED|---- .*%s stdout" % (n, n), ptext) for n in names
             )
+            # a test binary killed by a signal (heap corruption detected by the allocator, SIGSEGV,
+            # abort) is a native reproduction as well
+            if re.search(r"process didn't exit successfully.*\(signal: \d+", ptext):
+                failed_native = True
             ran = bool(re.search(r"running \d+ test", ptext))
             keep = "\n".join(
                 l for l in ptext.splitlines()
